@@ -627,10 +627,12 @@ Fixpoint seq_ends (ms : list msg) (err : bool) (sq : list gores) : bool :=
 Definition hcase_agrees (c : hcase) : bool :=
   let H := oracle_H (hc_oracle c) in
   let evs := handle_stream H (hc_bytes c) in
-  (match from_net H (hc_bytes c), hc_go_first c with
-   | NEof, GEof => true
-   | NErr, GErr => true
-   | NMsg m _, GMsg g => msg_same m g
+  (* FromNet on the bytes = the first step of the handler (handle_stream_step / handle_stream_malformed), read off
+     the event list so that multi-megabyte inputs are decoded once *)
+  (match evs, hc_go_first c with
+   | [], GEof => true
+   | [EvReset; EvError], GErr => true
+   | EvMsg m :: _, GMsg g => msg_same m g
    | _, _ => false
    end)
   && forall2b msg_same (ev_msgs evs) (hc_go_msgs c)
